@@ -169,10 +169,10 @@ func init() {
 	core.Register(&core.Check{
 		ID:    "C01",
 		Level: "exploration",
-		Rule: "operation histories on FAT12/16/32 volumes (sizes 1.44 MB..261 MiB, start offsets 0/512/1 MiB/4 GiB+512 on a sparse PRF-filled device) executed through the real API and, outcome-driven, on an in-memory reference tree: seeded random histories (mkdir, create, write at offsets inside/at/past EOF, append, truncating open, rename incl. rename-over, remove, up to 3 open handles, case-varied lookups, long/short/non-ASCII names, invalid calls), fill-to-ENOSPC/release/refill cycles (release by remove, truncate), root-directory exhaustion, a history on a 6 GiB FAT32 volume whose clusters below the 4 GiB offset were marked bad beforehand, a regrow workload (a file and a late directory with all clusters behind them in use are grown after a large file in front of them was removed), and all histories of length <= 3 (thorough: 4) over a 12-call alphabet; every refusal for lack of space is checked against the FAT read raw (enough free clusters for what was refused = violation); after every call all listings and contents are compared live, through open handles, and periodically through a fresh fatNN.Read of the image; a history is non-trivial when at least one mutating call was accepted; distinct = distinct (volume, executed history)",
+		Rule: "operation histories on FAT12/16/32 volumes (sizes 1.44 MB..261 MiB, start offsets 0/512/1 MiB/4 GiB+512 on a sparse PRF-filled device) executed through the real API and, outcome-driven, on an in-memory reference tree: seeded random histories (mkdir, create, write at offsets inside/at/past EOF, append, truncating open, rename incl. rename-over, remove, up to 3 open handles, case-varied lookups, long/short/non-ASCII names, invalid calls), fill-to-ENOSPC/release/refill cycles (release by remove, truncate), root-directory exhaustion, a history on a 6 GiB FAT32 volume whose clusters below the 4 GiB offset were marked bad beforehand, a regrow workload (a file and a late directory with all clusters behind them in use are grown after a large file in front of them was removed), and all histories of length <= 3 (thorough: 4) over a 12-call alphabet; every refusal for lack of space is checked against the FAT read raw (enough free clusters for what was refused = violation); after every call all listings and contents are compared live, through open handles, and periodically through a fresh fatNN.Read of the image; a history is non-trivial when at least one mutating call was accepted; distinct = distinct (volume, executed history); every third random history and every other refill cycle go on in a new session (all handles closed, the image opened again read-write from its bytes), so that what one session released must be usable by the next",
 		Assumptions: []string{"names are drawn from the legal-name domain of the property (no '~', no leading/trailing space or dot, no two names differing only in case)", "paths are passed in io/fs form (no leading slash)", "avoidance switches in force (tied to open findings): see coverage.avoidance"},
 		MinSigs:   map[string]int{"quick": 300, "thorough": 5000},
-		NeedMarks: []string{"range formatted a second time over a populated volume", "fat12", "fat16", "fat32", "ENOSPC reached", "file and directory grown into space released in front of them", "volume beyond 4 GiB", "bounded-exhaustive histories"},
+		NeedMarks: []string{"history continued in a new session on the re-opened image", "range formatted a second time over a populated volume", "fat12", "fat16", "fat32", "ENOSPC reached", "file and directory grown into space released in front of them", "volume beyond 4 GiB", "bounded-exhaustive histories"},
 		CPUSec:    600,
 		Cases:     c01Cases,
 		Run:       c01Run,
